@@ -23,6 +23,15 @@ Streams
   * random: long random interleavings (stages 2-5, widths 0-9, signed and unsigned, in- and
     out-of-range initial values, both async edges, pulse schedules that respect / violate the
     spacing hypothesis);
+  * multi: designs with two or three AsyncFFSynchronizer / ResetSynchronizer instances (each owns a
+    private clock domain called "async_ff"), different inputs, output clocks, stage counts and
+    nesting depths, sometimes next to an FFSynchronizer / PulseSynchronizer; every instance is
+    compared with its own model run on its own events, and must not move on anybody else's;
+  * renamed: primitives under `DomainRenamer` maps (none, identity, distinct targets, "sync" renamed
+    by a str, swap, chains, and maps that send BOTH domains of a PulseSynchronizer onto one clock);
+    expected = the model run with the renamed, possibly identical, clocks;
+  * reuse: a primitive elaborated once (`Fragment.get`), the Fragment used in two or three successive
+    designs whose top level declares new ClockDomain objects (other clk_edge / reset kind);
   * malformed: constructor rejections compared as error kinds;
   * elaboration: every primitive x async_edge x `clk_edge` of the output domain, elaborated for the
     simulator and for RTLIL; `DomainRequirementFailed` expected exactly where the model's
@@ -199,6 +208,180 @@ def simulate_many(cases, workers):
         return list(ex.map(simulate, cases, chunksize=chunk))
 
 
+# ------------------------------------------------------------------------------------------------
+# designs: several primitives in one simulated design, primitives under DomainRenamer, and one
+# elaborated Fragment used in several successive designs
+#
+# session = {"stream": ..., "insts": [inst, ...], "reuse": bool, "runs": [run, ...]}
+#   inst  = the parameters of `simulate`'s case (kind, n, w, signed, wo, osigned, init, i0, reset_less,
+#           pos, iform, aux) plus
+#             "o_name" / "i_name": the domain names handed to the constructor (i_name: PulseSynchronizer),
+#             "omit_dom": o_domain / domain not passed (then o_name is "sync"),
+#             "rename": list of DomainRenamer maps (a dict, or a str = {"sync": str}), innermost first,
+#             "nest": number of wrapper Modules between the top level and the primitive
+#   run   = {"domains": [{"name", "neg", "async"}...], "evs": [design event...]}
+#   design events: ["c", [domain index...]]  the listed clocks have their active edge in one ctx.set
+#                  ["s", k, pattern]         drive the input of instance k
+#                  ["R", d, 0|1]             drive the reset of domain d
+# With "reuse" every primitive is elaborated ONCE (`Fragment.get(prim, None)`) and the same Fragment
+# object is put into every run's new top-level Module, which declares its domains itself with new
+# ClockDomain objects.  Every instance is compared with its own model run on the projection of the
+# design's events onto that instance (its clocks under their final names, its input, the reset of its
+# output domain); an event that is not in the projection must leave its output unchanged.
+
+def apply_renames(name, renames):
+    for mp in renames:
+        mp = {"sync": mp} if isinstance(mp, str) else mp
+        name = mp.get(name, name)
+    return name
+
+
+def eff_domains(inst):
+    """final names of (input domain or None, output domain) of an instance, after its renamers"""
+    rn = inst.get("rename", [])
+    i = apply_renames(inst["i_name"], rn) if inst["kind"] == "pulse" else None
+    return i, apply_renames(inst["o_name"], rn)
+
+
+def project(inst, run, k):
+    """the design's events as instance k sees them: (events of `simulate`'s alphabet, for each of them
+    the index of the design event it comes from)"""
+    names = [d["name"] for d in run["domains"]]
+    di, do = eff_domains(inst)
+    evs, idx = [], []
+    for j, e in enumerate(run["evs"]):
+        p = None
+        if e[0] == "c":
+            hit_i = di is not None and names.index(di) in e[1]
+            hit_o = names.index(do) in e[1]
+            p = "b" if hit_i and hit_o else "i" if hit_i else "o" if hit_o else None
+        elif e[0] == "s":
+            p = e[2] if e[1] == k else None
+        elif e[0] == "R" and inst["kind"] == "ff" and names[e[1]] == do:
+            p = "R" if e[2] else "r"
+        if p is not None:
+            evs.append(p)
+            idx.append(j)
+    return evs, idx
+
+
+def inst_case(inst, run, k):
+    """instance k of a run as a case of `request` / `compare`, on its projected events"""
+    _di, do = eff_domains(inst)
+    dom = next(d for d in run["domains"] if d["name"] == do)
+    evs, idx = project(inst, run, k)
+    c = {key: v for key, v in inst.items() if key not in ("o_name", "i_name", "rename", "nest", "omit_dom")}
+    c.update(evs=evs, async_dom=dom["async"], neg_dom=dom["neg"])
+    return c, idx
+
+
+def simulate_session(sess):
+    """returns per run: per instance the list of outputs (before any event, after every design event),
+    or ("error", kind, message) for the run"""
+    from amaranth.hdl import Module, Signal, ClockDomain, Cat, Fragment, DomainRenamer, signed, unsigned
+    from amaranth.sim import Simulator
+    from amaranth.lib import cdc
+    try:
+        built = []
+        for inst in sess["insts"]:
+            kind, n = inst["kind"], inst["n"]
+            dom_kw = "domain" if kind == "reset" else "o_domain"
+            kw = {"stages": n}
+            if not inst.get("omit_dom") and kind != "pulse":
+                kw[dom_kw] = inst["o_name"]
+            out = None
+            if kind == "ff":
+                inp, set_input = make_input(inst.get("iform", "signal"), inst["w"], inst["signed"], inst["i0"], inst.get("aux", 0))
+                out = Signal(signed(inst["wo"]) if inst["osigned"] else unsigned(inst["wo"]))
+                prim = cdc.FFSynchronizer(inp, out, init=inst["init"], reset_less=inst["reset_less"], **kw)
+            elif kind == "async":
+                inp, set_input = make_input(inst.get("iform", "signal"), 1, False, inst["i0"], inst.get("aux", 0))
+                out = Signal()
+                prim = cdc.AsyncFFSynchronizer(inp, out, async_edge="pos" if inst["pos"] else "neg", **kw)
+            elif kind == "reset":
+                inp, set_input = make_input(inst.get("iform", "signal"), 1, False, inst["i0"], inst.get("aux", 0))
+                prim = cdc.ResetSynchronizer(inp, **kw)
+            elif kind == "pulse":
+                prim = cdc.PulseSynchronizer(inst["i_name"], inst["o_name"], **kw)
+                out = prim.o
+                set_input = (lambda sig: lambda ctx, p: ctx.set(sig, p))(prim.i)
+            else:
+                raise AssertionError(kind)
+            for mp in inst.get("rename", []):
+                prim = DomainRenamer(mp)(prim)
+            if sess.get("reuse"):
+                prim = Fragment.get(prim, None)
+            built.append((prim, out, set_input))
+    except AssertionError:
+        raise
+    except Exception as e:                          # noqa: BLE001 - mapped to an error kind
+        return [("error", common.errkind(e), str(e)[:200])] * len(sess["runs"])
+    results = []
+    for run in sess["runs"]:
+        try:
+            m = Module()
+            cds = []
+            for d in run["domains"]:
+                cd = ClockDomain(d["name"], async_reset=d["async"], **({"clk_edge": "neg"} if d["neg"] else {}))
+                m.domains += cd
+                cds.append(cd)
+                keep = Signal(4, name=f"keep_{d['name']}")
+                m.d[d["name"]] += keep.eq(keep + 1)     # makes it a real clock of the design / something to reset
+            outs_sig = []
+            for k, (inst, (prim, out, _set)) in enumerate(zip(sess["insts"], built)):
+                sub = prim
+                for _ in range(inst.get("nest", 0)):
+                    wrap = Module()
+                    wrap.submodules.inner = sub
+                    sub = wrap
+                m.submodules[f"u{k}"] = sub
+                if inst["kind"] == "reset":
+                    out = cds[[d["name"] for d in run["domains"]].index(eff_domains(inst)[1])].rst
+                outs_sig.append(out)
+            masks = [(1 << len(s)) - 1 for s in outs_sig]
+            sim = Simulator(m)
+            outs = [[] for _ in outs_sig]
+            idle = sum((1 << j) for j, d in enumerate(run["domains"]) if d["neg"])
+            clks = Cat(*[cd.clk for cd in cds])
+
+            def observe(ctx):
+                for o, s, mk in zip(outs, outs_sig, masks):
+                    o.append(ctx.get(s) & mk)
+
+            async def tb(ctx, run=run, clks=clks, idle=idle, cds=cds, observe=observe):
+                if idle:
+                    ctx.set(clks, idle)                 # idle level; a rising edge is not an active one
+                observe(ctx)
+                for e in run["evs"]:
+                    if e[0] == "c":
+                        flip = sum(1 << j for j in e[1])
+                        ctx.set(clks, idle ^ flip)
+                        ctx.set(clks, idle)
+                    elif e[0] == "s":
+                        built[e[1]][2](ctx, e[2])
+                    elif e[0] == "R":
+                        ctx.set(cds[e[1]].rst, e[2])
+                    else:
+                        raise AssertionError(e)
+                    observe(ctx)
+            sim.add_testbench(tb)
+            sim.run()
+            results.append(outs)
+        except AssertionError:
+            raise
+        except Exception as e:                      # noqa: BLE001 - mapped to an error kind
+            results.append(("error", common.errkind(e), str(e)[:200]))
+    return results
+
+
+def simulate_sessions(sessions, workers):
+    if workers <= 1 or len(sessions) < 1500:        # a session takes a few ms: a pool only pays off for the thorough tier
+        return [simulate_session(s) for s in sessions]
+    chunk = max(2, len(sessions) // (workers * 4))
+    with concurrent.futures.ProcessPoolExecutor(max_workers=workers) as ex:
+        return list(ex.map(simulate_session, sessions, chunksize=chunk))
+
+
 def f4_in_driven_domain():
     """Informational: finding F4 (a rising async reset ran the whole sync process) never reached
     the outputs of the primitives (every flop of the private domain is resettable to 1); it was
@@ -364,6 +547,199 @@ def rand_pulse(rng):
             "omit": ["stages"] if n == 2 and rng.random() < 0.5 else []}
 
 
+def rand_inst(rng, kind):
+    """parameters of one primitive inside a design (all constructor arguments passed)"""
+    n = rng.choice([2, 2, 3, 3, 4])
+    inst = {"kind": kind, "n": n, "nest": rng.choice([0, 0, 1, 2]), "rename": []}
+    if kind == "ff":
+        w = rng.randint(1, 4)
+        mask = (1 << w) - 1
+        sg = rng.random() < 0.25
+        wo = rng.choice([w, w, w + 2, max(1, w - 1)])
+        inst.update(w=w, signed=sg, wo=wo, osigned=rng.random() < 0.3,
+                    init=rng.randint(-(1 << (w - 1)), (1 << (w - 1)) - 1) if sg else rng.randint(0, mask),
+                    i0=rng.randint(0, mask), reset_less=rng.random() < 0.6,
+                    iform=rng.choice(["signal", "signal", "not", "xor"]), aux=rng.getrandbits(16))
+    elif kind in ("async", "reset"):
+        inst.update(pos=True if kind == "reset" else rng.random() < 0.6, i0=rng.randint(0, 1),
+                    iform=rng.choice(["signal", "signal", "not"]), aux=rng.getrandbits(16))
+    return inst
+
+
+def rand_design_events(rng, insts, domains, length, resettable=()):
+    """a schedule of a design: clock edges of its domains (each domain with its own rate, a few of
+    them coincident), changes of every instance's input, and the reset of the `resettable` domains"""
+    nd = len(domains)
+    rate = [rng.choice([0.15, 1, 1, 1, 3]) for _ in range(nd)]
+    if nd > 1 and rng.random() < 0.3:
+        rate[rng.randrange(nd)] = 0                          # one clock of the design stands still
+    if not any(rate):
+        rate[rng.randrange(nd)] = 1
+    p_set = rng.choice([0.2, 0.3, 0.45])
+    p_rst = rng.choice([0.0, 0.05, 0.1]) if resettable else 0.0
+    level = [0] * len(insts)
+    evs = []
+    for _ in range(length):
+        x = rng.random()
+        if x < p_rst:
+            evs.append(["R", rng.choice(list(resettable)), int(rng.random() < 0.55)])
+        elif x < p_rst + p_set:
+            k = rng.randrange(len(insts))
+            inst = insts[k]
+            if inst["kind"] == "ff":
+                v = rng.randint(0, (1 << inst["w"]) - 1)
+            elif inst["kind"] == "pulse":
+                v = int(rng.random() < 0.6)
+            else:
+                v = 1 - level[k] if rng.random() < 0.7 else level[k]
+                level[k] = v
+            evs.append(["s", k, v])
+        else:
+            hit = sorted(set(rng.choices(range(nd), weights=rate, k=1 if rng.random() < 0.8 else rng.randint(2, nd + 1))))
+            evs.append(["c", hit])
+    return evs
+
+
+def name_domains(rng, insts, prefix="c"):
+    """gives every instance its output (and input) domain: a ResetSynchronizer owns the domain it
+    resets, the other primitives share or do not share theirs.  returns the list of domain names"""
+    names, shared = [], []
+    for inst in insts:
+        def fresh():
+            names.append(f"{prefix}{len(names)}")
+            return names[-1]
+        if inst["kind"] == "reset":
+            inst["o_name"] = fresh()
+            continue
+        if shared and rng.random() < 0.3:
+            inst["o_name"] = rng.choice(shared)
+        else:
+            inst["o_name"] = fresh()
+            shared.append(inst["o_name"])
+        if inst["kind"] == "pulse":
+            if rng.random() < 0.5 and [s for s in shared if s != inst["o_name"]]:
+                inst["i_name"] = rng.choice([s for s in shared if s != inst["o_name"]])
+            else:
+                inst["i_name"] = fresh()
+                shared.append(inst["i_name"])
+    return names
+
+
+def domain_props(rng, insts, names):
+    """how a run's top level declares the domains: the clock edge and reset kind of each (the
+    falling edge only where no AsyncFFSynchronizer / ResetSynchronizer needs a rising one)"""
+    pos_only = set()
+    for inst in insts:
+        if inst["kind"] in ("async", "reset"):
+            pos_only.add(eff_domains(inst)[1])
+    return [{"name": nm, "neg": nm not in pos_only and rng.random() < 0.3, "async": rng.random() < 0.5} for nm in names]
+
+
+def resettable_domains(insts, names):
+    """indices of the domains whose reset the schedule may drive: only FFSynchronizer outputs (whose
+    model has the reset) and AsyncFFSynchronizer outputs (which use the domain's clock alone) live there"""
+    ok = set(range(len(names)))
+    for inst in insts:
+        di, do = eff_domains(inst)
+        if inst["kind"] == "reset":
+            ok.discard(names.index(do))
+        if inst["kind"] == "pulse":
+            ok.discard(names.index(do))
+            ok.discard(names.index(di))
+    return sorted(ok)
+
+
+def gen_multi(rng):
+    """two or three AsyncFFSynchronizer / ResetSynchronizer instances (each with its private
+    "async_ff" domain) in one design, with different inputs, output clocks and stage counts;
+    sometimes an FFSynchronizer or a PulseSynchronizer next to them"""
+    kinds = [rng.choice(["async", "reset"]) for _ in range(rng.choice([2, 2, 3]))]
+    if rng.random() < 0.35:
+        kinds.append(rng.choice(["ff", "pulse"]))
+    rng.shuffle(kinds)
+    insts = [rand_inst(rng, k) for k in kinds]
+    if rng.random() < 0.6:                                   # different stage counts side by side
+        for j, inst in enumerate(insts):
+            inst["n"] = 2 + (j + rng.randint(0, 1)) % 3
+    names = name_domains(rng, insts)
+    doms = domain_props(rng, insts, names)
+    evs = rand_design_events(rng, insts, doms, rng.randint(20, 70), resettable_domains(insts, names))
+    return {"stream": "multi", "insts": insts, "reuse": False, "runs": [{"domains": doms, "evs": evs}]}
+
+
+RENAMES = {
+    # name: (kinds, o_name, i_name, omit_dom, maps)    PulseSynchronizer is built as ("w", "r")
+    "none": (("ff", "async", "reset", "pulse"), "r", "w", False, []),
+    "empty map": (("ff", "async", "reset", "pulse"), "r", "w", False, [{}]),
+    "unrelated name": (("ff", "async", "reset", "pulse"), "r", "w", False, [{"zz": "q", "sync": "r2"}]),
+    "distinct targets": (("ff", "async", "reset", "pulse"), "r", "w", False, [{"w": "a", "r": "b"}]),
+    "output only": (("ff", "async", "reset", "pulse"), "r", "w", False, [{"r": "b"}]),
+    "input only": (("pulse",), "r", "w", False, [{"w": "a"}]),
+    "default sync renamed by a str": (("ff", "async", "reset"), "sync", None, True, ["pix"]),
+    "sync renamed by a str": (("pulse",), "sync", "w", False, ["pix"]),
+    "swap": (("pulse",), "r", "w", False, [{"w": "r", "r": "w"}]),
+    "chain": (("ff", "async", "reset", "pulse"), "r", "w", False, [{"r": "t", "w": "u"}, {"t": "v"}]),
+    "chain swap": (("pulse",), "r", "w", False, [{"w": "a", "r": "b"}, {"a": "b", "b": "a"}]),
+    "merge both into a third": (("pulse",), "r", "w", False, [{"w": "sys", "r": "sys"}]),
+    "merge both into sync": (("pulse",), "r", "w", False, [{"w": "sync", "r": "sync"}]),
+    "merge input into output": (("pulse",), "r", "w", False, [{"w": "r"}]),
+    "merge output into input": (("pulse",), "r", "w", False, [{"r": "w"}]),
+    "merge by chain": (("pulse",), "r", "w", False, [{"w": "a"}, {"r": "a"}]),
+    "merge output into sync input": (("pulse",), "r", "sync", False, ["r"]),
+}
+
+
+def gen_renamed(rng, which=None, kind=None):
+    """one primitive (sometimes with a second, un-renamed one next to it) under DomainRenamer"""
+    if which is None:
+        which = rng.choice(sorted(RENAMES))
+    kinds, o_name, i_name, omit_dom, maps = RENAMES[which]
+    kind = kind or rng.choice(kinds)
+    inst = rand_inst(rng, kind)
+    inst.update(o_name=o_name, omit_dom=omit_dom, rename=[dict(m) if isinstance(m, dict) else m for m in maps])
+    if kind == "pulse":
+        inst["i_name"] = i_name
+    insts = [inst]
+    names = sorted({d for d in eff_domains(inst) if d is not None})
+    if rng.random() < 0.25:                                  # a bystander in domains of its own
+        other = rand_inst(rng, rng.choice(["ff", "async", "pulse"]))
+        extra = name_domains(rng, [other], prefix="x")
+        insts.append(other)
+        names += extra
+    doms = domain_props(rng, insts, names)
+    evs = rand_design_events(rng, insts, doms, rng.randint(20, 60), resettable_domains(insts, names))
+    if kind == "pulse" and rng.random() < 0.7:               # flush, so that the pulse counts can be compared
+        di, do = eff_domains(inst)
+        evs += [["s", 0, 0]] + [["c", [names.index(do)]]] * (inst["n"] + 2)
+    return {"stream": "renamed", "rename": which, "insts": insts, "reuse": False, "runs": [{"domains": doms, "evs": evs}]}
+
+
+def gen_reuse(rng):
+    """one or two primitives elaborated once; the Fragment objects are used in two or three
+    successive designs whose top level declares the domains anew (other clock edge / reset kind)"""
+    kinds = [rng.choice(["ff", "ff", "async", "reset", "pulse", "pulse"])]
+    if rng.random() < 0.3:
+        kinds.append(rng.choice(["ff", "async", "reset", "pulse"]))
+    insts = [rand_inst(rng, k) for k in kinds]
+    names = name_domains(rng, insts, prefix="p")
+    if rng.random() < 0.25 and len(insts) == 1:
+        which = rng.choice([w for w in sorted(RENAMES) if insts[0]["kind"] in RENAMES[w][0] and not RENAMES[w][3]])
+        _k, o_name, i_name, _om, maps = RENAMES[which]
+        insts[0].update(o_name=o_name, rename=[dict(m) if isinstance(m, dict) else m for m in maps])
+        if insts[0]["kind"] == "pulse":
+            insts[0]["i_name"] = i_name
+        names = sorted({d for d in eff_domains(insts[0]) if d is not None})
+    runs = []
+    for _ in range(rng.choice([2, 3, 3])):
+        doms = domain_props(rng, insts, names)
+        evs = rand_design_events(rng, insts, doms, rng.randint(15, 45), resettable_domains(insts, names))
+        for k, inst in enumerate(insts):
+            if inst["kind"] == "pulse":
+                evs += [["s", k, 0]] + [["c", [names.index(eff_domains(inst)[1])]]] * (inst["n"] + 2)
+        runs.append({"domains": doms, "evs": evs})
+    return {"stream": "reuse", "insts": insts, "reuse": True, "runs": runs}
+
+
 def reachable_many(chk, graphs, limit=5000):
     """breadth-first enumeration of the reachable states of several model instances at once (one
     driver call per BFS level for all of them).  graphs: list of (base case, alphabet).
@@ -474,8 +850,9 @@ def exhaustive_cases(chk, quick):
 # ------------------------------------------------------------------------------------------------
 # comparison
 
-def compare(chk, case, impl, resp):
-    """returns True when the case agrees everywhere"""
+def compare(chk, case, impl, resp, where=""):
+    """returns True when the case agrees everywhere.  `where`: context put in front of the summaries
+    (the design an instance is part of); the comparison itself does not depend on it"""
     kind = case["kind"]
     d = common.kv(resp)
     if "model" not in d:
@@ -484,7 +861,7 @@ def compare(chk, case, impl, resp):
     replay = {k: v for k, v in case.items()}
     replay["request"] = request(case)
     if isinstance(impl, tuple):
-        chk.violation(f"{kind}: the real primitive raised {impl[1]} on a valid configuration: {impl[2]}",
+        chk.violation(f"{where}{kind}: the real primitive raised {impl[1]} on a valid configuration: {impl[2]}",
                       dict(replay, impl=list(impl)))
         return False
     if len(impl) != len(model):
@@ -502,7 +879,7 @@ def compare(chk, case, impl, resp):
     for j, (a, s, ok) in enumerate(zip(impl, spec, applicable)):
         if ok and a != s:
             chk.violation(
-                f"{kind} stages={case['n']}{cfg}: output {a} after event #{j} ({'start' if j == 0 else case['evs'][j - 1]}), "
+                f"{where}{kind} stages={case['n']}{cfg}: output {a} after event #{j} ({'start' if j == 0 else case['evs'][j - 1]}), "
                 f"the contract says {s}",
                 dict(replay, impl=impl, model=model, spec=spec, first_difference=j))
             return False
@@ -511,14 +888,14 @@ def compare(chk, case, impl, resp):
         high = sum(1 for j, e in enumerate(evs) if e in ("o", "b") and impl[j + 1])
         if high != int(d["pulses"]):
             chk.violation(
-                f"pulse stages={case['n']}: {int(d['pulses'])} input pulses, {high} high output cycles",
+                f"{where}pulse stages={case['n']}: {int(d['pulses'])} input pulses, {high} high output cycles",
                 dict(replay, impl=impl, model=model, spec=spec))
             return False
         chk.hist("pulse_counts_compared", min(int(d["pulses"]), 10))
     # the tie
     if impl != model:
         j = next(j for j in range(len(impl)) if impl[j] != model[j])
-        chk.not_shown(f"{kind}: real primitive and model part ways (contract not contradicted)",
+        chk.not_shown(f"{where}{kind}: real primitive and model part ways (contract not contradicted)",
                       dict(replay, impl=impl, model=model, spec=spec, first_difference=j))
         return False
     return True
@@ -641,6 +1018,90 @@ def elaboration(chk):
     return len(trials)
 
 
+PRIM_NAMES = {"ff": "FFSynchronizer", "async": "AsyncFFSynchronizer", "reset": "ResetSynchronizer",
+              "pulse": "PulseSynchronizer"}
+
+
+def designs(chk, rng, quick, workers):
+    """the three design streams (see `simulate_session`); returns their sizes"""
+    n_multi = int(os.environ.get("VERIF_C17_MULTI", "160" if quick else "4000"))
+    n_ren = int(os.environ.get("VERIF_C17_RENAMED", "220" if quick else "4000"))
+    n_reuse = int(os.environ.get("VERIF_C17_REUSE", "120" if quick else "2500"))
+    sessions = [gen_multi(rng) for _ in range(n_multi)]
+    ren = [gen_renamed(rng, which, kind) for which in sorted(RENAMES) for kind in RENAMES[which][0] for _ in range(2)]
+    while len(ren) < n_ren:
+        ren.append(gen_renamed(rng))
+    sessions += ren
+    sessions += [gen_reuse(rng) for _ in range(n_reuse)]
+    results = simulate_sessions(sessions, workers)
+    items = []
+    for sess, res in zip(sessions, results):
+        chk.hist("design_stream", sess["stream"])
+        chk.hist("design_primitives", f"{sess['stream']}: " + " + ".join(sorted(PRIM_NAMES[i["kind"]] for i in sess["insts"])))
+        priv = [i for i in sess["insts"] if i["kind"] in ("async", "reset")]
+        if sess["stream"] == "multi":
+            chk.hist("multi_private_async_ff_domains_in_one_design", len(priv))
+            chk.hist("multi_distinct_output_clocks_of_async_ff_instances", len({eff_domains(i)[1] for i in priv}))
+            chk.hist("multi_distinct_stage_counts_of_async_ff_instances", len({i["n"] for i in priv}))
+            chk.hist("multi_instances_below_wrapper_modules", sum(1 for i in sess["insts"] if i["nest"]))
+        if sess["stream"] == "renamed":
+            inst = sess["insts"][0]
+            chk.hist("renamed_map", f"{PRIM_NAMES[inst['kind']]}: {sess['rename']}")
+            if inst["kind"] == "pulse":
+                di, do = eff_domains(inst)
+                chk.hist("renamed_pulse_domains", "both domains end on one clock" if di == do else "two clocks")
+        if sess["stream"] == "reuse":
+            chk.hist("reuse_designs_per_fragment", len(sess["runs"]))
+            chk.hist("reuse_fragment_under_renamer", any(i["rename"] for i in sess["insts"]))
+        for r, (run, outs) in enumerate(zip(sess["runs"], res)):
+            if sess["stream"] == "reuse" and r > 0:
+                prev = {d["name"]: d for d in sess["runs"][r - 1]["domains"]}
+                ch = sorted({w for d in run["domains"] for w, key in (("clk_edge", "neg"), ("reset kind", "async"))
+                             if d[key] != prev[d["name"]][key]})
+                chk.hist("reuse_domains_redeclared_with", " and ".join(ch) + " changed" if ch else "the same clk_edge and reset kind")
+            for k, inst in enumerate(sess["insts"]):
+                case, idx = inst_case(inst, run, k)
+                case["stream"] = sess["stream"]
+                items.append((sess, r, k, case, idx, outs))
+    resps = chk.driver.ask([request(it[3]) for it in items])
+    for (sess, r, k, case, idx, outs), resp in zip(items, resps):
+        run, inst = sess["runs"][r], sess["insts"][k]
+        chk.count()
+        name = PRIM_NAMES[inst["kind"]]
+        di, do = eff_domains(inst)
+        where = {"multi": f"instance #{k} of {len(sess['insts'])} in one design ({do!r}): ",
+                 "renamed": f"under DomainRenamer {inst['rename']!r} (-> {'/'.join(x for x in (di, do) if x)}): ",
+                 "reuse": f"use #{r + 1} of one Fragment: "}[sess["stream"]]
+        case["design"] = {"stream": sess["stream"], "instances": sess["insts"], "fragment_reused": sess["reuse"],
+                          "use": r + 1, "instance": k, "domains": run["domains"], "design_events": run["evs"],
+                          "projection": idx, "earlier_uses": sess["runs"][:r]}
+        if isinstance(outs, tuple):
+            compare(chk, case, outs, resp, where)
+            continue
+        full = outs[k]
+        nontrivial = len(set(full)) > 1
+        chk.distinct((sess["stream"], r, k, repr(sess["insts"]), repr(sess["runs"][:r + 1])), nontrivial)
+        chk.hist("design_instance_output", f"{sess['stream']}: {name}: " + ("changes" if nontrivial else "constant"))
+        chk.hist("primitive", name)
+        chk.hist("stream", sess["stream"])
+        chk.hist("stages", inst["n"])
+        if sess["stream"] == "reuse":
+            chk.hist("reuse_use_number", f"{name}: use #{r + 1}" + (" changes" if nontrivial else " constant"))
+        part = set(idx)
+        stray = next((j for j in range(len(run["evs"])) if j not in part and full[j + 1] != full[j]), None)
+        if stray is not None:
+            chk.violation(
+                f"{where}{name} stages={inst['n']}: output goes {full[stray]} -> {full[stray + 1]} at design event #{stray + 1} "
+                f"{run['evs'][stray]}, which is neither an edge of its clock(s) nor a change of its input",
+                dict(case, request=request(case), impl_all_events=full, first_difference=stray + 1))
+            continue
+        ok = compare(chk, case, [full[0]] + [full[j + 1] for j in idx], resp, where)
+        if ok and nontrivial:
+            chk.sample({"design": sess["stream"], "instance": {kk: v for kk, v in inst.items()}, "domains": run["domains"],
+                        "events": run["evs"][:30], "outputs": full[:31]}, limit=9)
+    return {"multi": n_multi, "renamed": len(ren), "reuse": n_reuse, "instance_runs": len(items)}
+
+
 # ------------------------------------------------------------------------------------------------
 
 def run(chk):
@@ -731,6 +1192,7 @@ def run(chk):
                 chk.hist("pulse_input_pulses", min(int(d["pulses"]), 12))
             if nontrivial and isinstance(impl, list):
                 chk.sample({"case": {k: v for k, v in c.items() if k != "evs"}, "events": evs[:40], "outputs": outs[:41]})
+    n_des = designs(chk, rng, quick, workers)
     n_ctor = malformed(chk)
     n_elab = elaboration(chk)
 
@@ -749,8 +1211,15 @@ def run(chk):
                                 "part of both streams",
         "in_a_user_domain_driven_by_ResetSynchronizer": f4,
     }
+    chk.extra["design_streams"] = dict(n_des, what=(
+        "multi: 2-3 AsyncFFSynchronizer/ResetSynchronizer (+ sometimes FFSynchronizer/PulseSynchronizer) in ONE simulated "
+        "design; renamed: a primitive under DomainRenamer (every map of RENAMES x applicable primitive at least twice); "
+        "reuse: Fragment.get(primitive) used in 2-3 successive designs with newly declared domains. Every instance is "
+        "compared after every design event with its own model/contract run on the projection of the events"))
     chk.cov["rule"] = (
         f"{n_exh} exhaustive transition-cover schedules + {n_rand} random schedules (one third per primitive family) + "
+        f"{n_des['multi']} multi-instance designs + {n_des['renamed']} designs under DomainRenamer + {n_des['reuse']} reused-Fragment "
+        f"sessions ({n_des['instance_runs']} instance runs) + "
         f"{n_ctor} constructor calls + {n_elab} elaborations (primitive x async_edge x clk_edge / name / reset kind of "
         f"the output domain x stages x simulator|rtlil); a case is one (primitive, stages, width/init/edge, schedule); the output after "
         "every event is compared with model and contract; distinct = different configuration or schedule; "
@@ -765,4 +1234,8 @@ def run(chk):
         "the input converted by the driver (sign-extend a signed input, truncate), independent of the output's signedness",
         "falling-edge output domains: the hand-driven clock idles high, one event = one falling (active) edge",
         "pulse contract compared only on the prefixes of a schedule that satisfy the spacing hypothesis; on the others only the model is compared",
+        "design streams: a ResetSynchronizer owns the domain it resets; the reset of a domain is driven by the schedule only "
+        "where FFSynchronizer / AsyncFFSynchronizer outputs live; AsyncFFSynchronizer / ResetSynchronizer sit in rising-edge "
+        "domains; DomainRenamer maps never name the private 'async_ff' domain; two PulseSynchronizer domains renamed onto one "
+        "clock = every edge is a coincident edge of both",
     ]
